@@ -3,12 +3,14 @@
 mod facts;
 mod probe;
 mod rt;
+mod stmts;
 
 fn main() {
     let args = vrt::Args::parse();
     match args.sub.as_str() {
         "probe" => probe::run(&args),
         "facts" => facts::run(&args),
+        "stmts" => stmts::run(&args),
         s => vrt::die(&format!("unknown subcommand {s}")),
     }
 }
